@@ -8,6 +8,7 @@ import GocoinV.Proofs.C09WF
 import GocoinV.Proofs.C09Size
 import GocoinV.Proofs.C09Alloc
 import GocoinV.Proofs.C09Block
+import GocoinV.Proofs.C09Obj
 namespace GocoinV.Props.C09
 open GocoinV GocoinV.Wire GocoinV.CompactSize
 
@@ -481,6 +482,90 @@ theorem merkle_root_spec (H : Bytes → Bytes) (raw : Bytes) (hl : raw.length < 
 example : merkleRootMatch (fun x => x.take 32)
     (List.replicate 36 (0 : UInt8) ++ witCanonical.take 32 ++ List.replicate 12 (0 : UInt8) ++ [1] ++ witCanonical) = true := by
   decide +kernel
+
+/-! ### one `btc.Block` OBJECT through a history of calls (Model/WireBlockObj.lean)
+
+The Go object is stateful: `BuildTxListExt` re-uses `TxCount/TxOffset` when `TxCount ≠ 0`, `UpdateContent` replaces
+`Raw`, the client resets the fields by hand when a block turned out corrupt. The theorems below say that none of this
+history reaches the result of a build: it is the pure decode of the bytes the object holds at that moment. -/
+
+/-- **block_object_history_independent.** Take `btc.NewBlock(data)` (at least a header) and ANY sequence `ops` of
+    `UpdateContent(d)`, `BuildTxListExt(false/true)`, `Clean()` and the client's reset (with a former `Raw`, i.e.
+    ≥ 80 bytes) on that one object — whatever these calls returned (errors, recovered panics of `Clean`). Then
+    `Raw` is the last content installed (`currentRaw`), and a following `BuildTxListExt(dohash)`
+    * never panics,
+    * returns exactly the error class of the pure decode `decodeBlockExt H dohash Raw` of the CURRENT `Raw`
+      (a fresh `NewBlock(Raw)` + one `BuildTxListExt(dohash)`),
+    * and, unless that is the count error (where it leaves `Txs`/`BlockWeight` as they were and `TxCount = 0`),
+      leaves `TxCount`, `TxOffset`, `Txs` (transactions, their `Raw`, `Hash`, `wTxID`, `Size`, `NoWitSize`) and
+      `BlockWeight` equal to those of the pure decode: nothing of an earlier content, an earlier hash-less build or
+      an earlier failed build survives. -/
+theorem block_object_history_independent (H : Bytes → Bytes) (data : Bytes) (hd : 80 ≤ data.length)
+    (ops : List Op) (hw : ∀ op ∈ ops, op.WF) (dohash : Bool) :
+    let s := run H ops (updateContent data emptyObj).1
+    let r := decodeBlockExt H dohash (currentRaw ops data)
+    let res := buildTxListExt H dohash s
+    s.raw = currentRaw ops data ∧
+    res.2 = outcomeOf r.err ∧ res.2 ≠ .panic ∧ res.2 ≠ .tooShort ∧
+    (res.2 = .badCount → res.1.txCount = 0 ∧ res.1.txs = s.txs ∧ res.1.weight = s.weight) ∧
+    (res.2 ≠ .badCount → res.1.txCount = r.txCount ∧ res.1.txOffset = 80 + vlenSize r.txCount ∧
+        res.1.txs = some r.txs ∧ res.1.weight = r.weight) := by
+  intro s r res
+  have hinv : s.Inv := inv_run H ops hw _ (inv_update data emptyObj (Or.inr hd))
+  have hraw : s.raw = currentRaw ops data := by
+    show (run H ops (updateContent data emptyObj).1).raw = _
+    rw [raw_run, raw_update]
+    have : ¬ data.length < 80 := by omega
+    simp [this]
+  refine ⟨hraw, ?_⟩
+  have := build_pure H dohash s hinv
+  rw [hraw] at this
+  exact this
+
+example : ∃ (data : Bytes) (ops : List Op), 80 ≤ data.length ∧ (∀ op ∈ ops, op.WF) ∧ ops.length = 4 :=
+  ⟨List.replicate 80 0, [.build false, .update (List.replicate 81 0), .discard (List.replicate 80 0), .clean],
+   by decide, by intro op h; simp at h; rcases h with rfl | rfl | rfl | rfl <;> simp [Op.WF], rfl⟩
+
+/-- **block_object_pure_is_decodeBlock.** The pure reference of `block_object_history_independent` for
+    `BuildTxList()` (`dohash = true`) IS `Wire.decodeBlock` — the function `block_weight_spec`, `block_txids_spec`
+    and `merkle_root_spec` speak about; so after any history `BuildTxList()` leaves `Txs[i].Hash` = BIP141 txid of
+    the i-th transaction of the CURRENT content (never the zero value of a previous hash-less build) and
+    `BlockWeight` = its BIP141 weight. -/
+theorem block_object_pure_is_decodeBlock (H : Bytes → Bytes) (raw : Bytes) :
+    (decodeBlockExt H true raw).err = (decodeBlock H raw).err ∧
+    (decodeBlockExt H true raw).txCount = (decodeBlock H raw).txCount ∧
+    (decodeBlockExt H true raw).txs = (decodeBlock H raw).txs ∧
+    (decodeBlockExt H true raw).weight = (decodeBlock H raw).weight :=
+  decodeBlockExt_true H raw
+
+/-- **block_object_txids_after_history.** Spelled out: any history on one object, then `BuildTxList()` that does
+    not report the count error, on a content below 4 GiB: every `Txs[i].Hash` is the txid of the transaction it
+    carries and `Txs[i].Raw` its BIP144 serialisation. -/
+theorem block_object_txids_after_history (H : Bytes → Bytes) (data : Bytes) (hd : 80 ≤ data.length)
+    (ops : List Op) (hw : ∀ op ∈ ops, op.WF) (hl : (currentRaw ops data).length < 2^32)
+    (hok : (buildTxListExt H true (run H ops (updateContent data emptyObj).1)).2 ≠ .badCount) :
+    ∃ txs, (buildTxListExt H true (run H ops (updateContent data emptyObj).1)).1.txs = some txs ∧
+      txs.map (·.ids.hash) = txs.map (fun t => txid H t.tx) ∧
+      txs.map (·.raw) = txs.map (fun t => encodeTx t.tx) := by
+  obtain ⟨_, _, _, _, _, h⟩ := block_object_history_independent H data hd ops hw true
+  obtain ⟨_, _, htx, _⟩ := h hok
+  obtain ⟨_, _, e, _⟩ := decodeBlockExt_true H (currentRaw ops data)
+  obtain ⟨b1, b2, _⟩ := block_txids_spec H (currentRaw ops data) hl
+  refine ⟨_, htx, ?_, ?_⟩
+  · rw [e]; exact b1
+  · rw [e]; exact b2
+
+/-- **block_object_dohash_false_same_weight.** `BuildTxListExt(false)` ("you do not need TxIDs") decodes the same
+    transactions with the same `Raw`/`Size`/`NoWitSize`, reports the same error class and the same `BlockWeight` as
+    `BuildTxListExt(true)`; every `Hash` it leaves is the all-zero value. -/
+theorem block_object_dohash_false_same_weight (H : Bytes → Bytes) (raw : Bytes) :
+    (decodeBlockExt H false raw).err = (decodeBlockExt H true raw).err ∧
+    (decodeBlockExt H false raw).txCount = (decodeBlockExt H true raw).txCount ∧
+    (decodeBlockExt H false raw).weight = (decodeBlockExt H true raw).weight ∧
+    (decodeBlockExt H false raw).txs.map (fun t => (t.tx, t.raw, t.ids.size, t.ids.noWitSize)) =
+      (decodeBlockExt H true raw).txs.map (fun t => (t.tx, t.raw, t.ids.size, t.ids.noWitSize)) ∧
+    ∀ t ∈ (decodeBlockExt H false raw).txs, t.ids.hash = List.replicate 32 0 :=
+  decodeBlockExt_false H raw
 
 -- OPEN: alloc_bounded_runtime — the bound is about the bytes REQUESTED (`Wire.allocTx`, proved above for every input);
 --   what the Go runtime adds (size-class rounding ≤ 2×, the panic value of a failed slice expression, `println`) is
